@@ -36,6 +36,16 @@ check('C01',
       'Shapes the manual leaves open are never generated (DESIGN.md section 4).',
       'DESIGN.md C01')
 
+check('C05',
+      'explicit-state exploration of every compiled image as a pushdown system, product with the source transition system, relocation identity, concrete conformance',
+      'For every control skeleton (<=5 nodes quick / <=6 thorough; routine definitions in every statement position, all loop kinds, break, '
+      'return) ALL abstract (pc, frame-stack) states of the loaded image are explored with both successors of each conditional jump; '
+      'invariants (pc inside image, in a routine body iff called, END_LOOP finds a loop frame, calls name existing routines, halt with empty '
+      'stack) hold in every state; marker languages of image and source agree by subset construction to depth 12; every jump keeps its '
+      'target object across loading; every concrete VM step is an abstract edge.',
+      'Abstract machine in mc/explore/pda.py mirrors the control part of Machine; bound to it by the concrete conformance run. Recursion cut at 3 active calls on both sides.',
+      'DESIGN.md C05')
+
 NOT_YET = 'check not built yet in this session (design in DESIGN.md); will be claimed when its command exists'
 
 
